@@ -79,7 +79,9 @@ for d in "$VERIF"/benign/"$PROP"r/*.diff "$VERIF"/benign/"$PROP"s/*.diff "$VERIF
     cp "$VERIF/known_findings.json" "$out/" 2>/dev/null
     "$BIN" -repo "$wt" -verif "$out" -prop "$PROP" -tier quick > "$out/log" 2>&1
     src=$?
-    if [ $src -eq 0 ]; then st="silent"; else st="FALSE ALARM (exit $src)"; alarm=1; fi
+    if [ $src -eq 0 ]; then st="silent"
+    elif [ $src -eq 2 ] && grep -q "type/load errors" "$out/log"; then st="skipped: the patched tree does not type-check (the patch is out of date with a later repair)"
+    else st="FALSE ALARM (exit $src)"; alarm=1; fi
   else
     st="skipped: patch does not apply to the current HEAD"
   fi
